@@ -1192,7 +1192,8 @@ class Definition(Macro):
     definition = None # type: Optional[str]
 
     def invoke(self, tex):
-        if not self.args: return self.definition
+        # (## in the body of a parameterless macro is a single # as well)
+        if not self.args: return expandDef(self.definition, [None])
 
         name = macroName(self)
         args = list(self.args)
